@@ -1,6 +1,7 @@
 import CpModel.Proto
 import CpModel.HeaderEnc
 import CpModel.Escape
+import CpModel.HeaderNorm
 /-!
   Driver for C12.  One case per line, fields separated by one space.
   `T` = text as decimal code points joined by `.` (`-` = empty), `H` = lower-case hex (`-` = empty).
@@ -21,8 +22,24 @@ import CpModel.Escape
     log T             -> T                       one access-log atom
     logline k=T …     -> ok T | none             the access-log line
     b64d H            -> ok H | none             own base64 decoder (validated against Python's)
+
+  round 2 (`P` = template pieces `l<T>` / `f<T>` joined by `/`):
+    title T           -> ok T | unmodelled       str.title()
+    strip T           -> T                       str.strip()
+    vstatus T         -> ok N T | bad | unmodelled   httputil.valid_status(str)
+    statusraw T       -> ok H | err:<e> | unmodelled status line of finalize for the status as SET
+    urlq T            -> T                       urllib.parse.quote
+    cdisp T T T       -> T                       _make_content_disposition(disp, [ascii name], name)
+    cquote T          -> T                       http.cookies._quote
+    cunq T            -> T                       reader of the quoted form
+    morsel T T k=T …  -> T                       Morsel.output() (key, coded value, sorted items)
+    dec2047 T         -> ok T | undecodable | unmodelled   decode_TEXT_maybe of one encoded word
+    errtpl P T T T T  -> ok H | none             get_error_page with a custom template
+    loglinef P k=T …  -> ok T | none             access-log line, custom access_log_format
+    logg T            -> T                       one atom with the proposed backslash guard
+  `log` / `logline` / `loglinef` follow the LIVE escaping (generated flag `logBackslashGuard`).
 -/
-open CpModel CpModel.HeaderEnc CpModel.Escape
+open CpModel CpModel.HeaderEnc CpModel.Escape CpModel.HeaderNorm
 
 namespace Drv.C12
 
@@ -54,6 +71,84 @@ def parseAtom (s : String) : Option (Text × Text) :=
     let v' ← Proto.untext? v
     pure (k.toList, v')
   | _ => none
+
+def parsePiece (s : String) : Option Piece :=
+  match s.toList with
+  | 'l' :: rest => (Proto.untext? (String.ofList rest)).map Piece.lit
+  | 'f' :: rest => (Proto.untext? (String.ofList rest)).map Piece.field
+  | _ => none
+
+def parsePieces (s : String) : Option (List Piece) := (s.splitOn "/").mapM parsePiece
+
+def stepNorm (fs : List String) : String :=
+  match fs with
+  | ["title", t] =>
+    match Proto.untext? t with
+    | some s => match title? s with
+      | some r => "ok " ++ Proto.text r
+      | none => "unmodelled"
+    | none => "bad-op"
+  | ["strip", t] =>
+    match Proto.untext? t with
+    | some s => Proto.text (strip s)
+    | none => "bad-op"
+  | ["vstatus", t] =>
+    match Proto.untext? t with
+    | some s => match validStatus s with
+      | .ok c r => "ok " ++ toString c ++ " " ++ Proto.text r
+      | .bad => "bad"
+      | .unmodelled => "unmodelled"
+    | none => "bad-op"
+  | ["statusraw", t] =>
+    match Proto.untext? t with
+    | some s => match statusLineRaw s with
+      | some r => showBytes r
+      | none => "unmodelled"
+    | none => "bad-op"
+  | ["urlq", t] =>
+    match Proto.untext? t with
+    | some s => Proto.text (urlQuote s)
+    | none => "bad-op"
+  | ["cdisp", a, b, c] =>
+    match Proto.untext? a, Proto.untext? b, Proto.untext? c with
+    | some a', some b', some c' => Proto.text (contentDisposition a' b' c')
+    | _, _, _ => "bad-op"
+  | ["cquote", t] =>
+    match Proto.untext? t with
+    | some s => Proto.text (cookieQuote s)
+    | none => "bad-op"
+  | ["cunq", t] =>
+    match Proto.untext? t with
+    | some s => Proto.text (cookieUnquote s)
+    | none => "bad-op"
+  | "morsel" :: k :: v :: kvs =>
+    match Proto.untext? k, Proto.untext? v, kvs.mapM parseAtom with
+    | some k', some v', some attrs => Proto.text (morselOutput k' v' attrs)
+    | _, _, _ => "bad-op"
+  | ["dec2047", t] =>
+    match Proto.untext? t with
+    | some s => match decodeWord s with
+      | .text r => "ok " ++ Proto.text r
+      | .undecodable => "undecodable"
+      | .unmodelled => "unmodelled"
+    | none => "bad-op"
+  | ["errtpl", p, a, b, c, d] =>
+    match parsePieces p, Proto.untext? a, Proto.untext? b, Proto.untext? c, Proto.untext? d with
+    | some tpl, some a', some b', some c', some d' =>
+      showOptBytes ((errorPageWith tpl a' b' c' d').map utf8)
+    | _, _, _, _, _ => "bad-op"
+  | "loglinef" :: p :: kvs =>
+    match parsePieces p, kvs.mapM parseAtom with
+    | some fmt, some atoms =>
+      match accessLineLive fmt atoms with
+      | some l => "ok " ++ Proto.text l
+      | none => "none"
+    | _, _ => "bad-op"
+  | ["logg", t] =>
+    match Proto.untext? t with
+    | some s => Proto.text (logEscapeGuarded s)
+    | none => "bad-op"
+  | _ => "bad-op"
 
 def step (line : String) : String :=
   match Proto.fields line with
@@ -112,12 +207,12 @@ def step (line : String) : String :=
     | _, _ => "bad-op"
   | ["log", t] =>
     match Proto.untext? t with
-    | some s => Proto.text (logEscape s)
+    | some s => Proto.text (logEscapeLive s)
     | none => "bad-op"
   | "logline" :: kvs =>
     match kvs.mapM parseAtom with
     | some atoms =>
-      match accessLine atoms with
+      match accessLineLive (toPieces CpModel.Gen.C12.accessLogFormat) atoms with
       | some l => "ok " ++ Proto.text l
       | none => "none"
     | none => "bad-op"
@@ -125,7 +220,7 @@ def step (line : String) : String :=
     match Proto.unhex? h with
     | some b => showOptBytes (b64dec b)
     | none => "bad-op"
-  | _ => "bad-op"
+  | fs => stepNorm fs
 
 end Drv.C12
 
